@@ -36,6 +36,7 @@ def plan(tier):
 
 def required(tier):
     return {
+        "parsers.with_accept_all_filter": 20,
         "nontrivial": 1500 if tier == "quick" else 15000,
         "forests": 5000,
         "index.out_of_range_checked": 5000,
@@ -89,17 +90,26 @@ def big_counts(ctx, mon):
                 check_input(ctx, mon, g, pg, parser, pkeys, {"grammar": text, "g": g.to_json(), "tables": tables, "input": w}, w, tree_limit=120)
 
 
+def accept_all(context, from_state, to_state, action, production, subresults):
+    return True
+
+
 def one_grammar(ctx, mon, name, g, alphabet, maxlen):
     text = g.text(inline=ctx.rng.random() < 0.3)
     ctx.count("grammar.cyclic" if g.cyclic() else "grammar.acyclic")
     if len(alphabet) >= 3 and maxlen > 4:
         maxlen = 4
     for tables in ("LALR", "SLR"):
-        case0 = {"grammar": text, "g": g.to_json(), "tables": tables}
+        # a dynamic filter that accepts everything changes nothing about the forest - but the
+        # driver then runs its filter code path at every link
+        filt = ctx.rng.random() < 0.2
+        if filt:
+            ctx.count("parsers.with_accept_all_filter")
+        case0 = {"grammar": text, "g": g.to_json(), "tables": tables, "filter": filt}
         try:
             with pgx.watchdog(20):
                 pg = pgx.grammar(text)
-                parser = pgx.glr(pg, tables=pgx.LALR if tables == "LALR" else pgx.SLR)
+                parser = pgx.glr(pg, tables=pgx.LALR if tables == "LALR" else pgx.SLR, **({"dynamic_filter": accept_all} if filt else {}))
         except pgx.CaseTimeout:
             ctx.inconc("construction timeout: %r" % text)
             continue
@@ -114,7 +124,7 @@ def one_grammar(ctx, mon, name, g, alphabet, maxlen):
 
 
 def check_input(ctx, mon, g, pg, parser, pkeys, case, inp, tree_limit=250):
-    key = (case["grammar"], case["tables"], inp)
+    key = (case["grammar"], case["tables"], inp, case.get("filter", False))
     try:
         with pgx.watchdog(60):
             o = glrobs.parse_glr(parser, inp)
@@ -289,7 +299,7 @@ def replay(case, ctx):
     mon.install()
     try:
         pg = pgx.grammar(case["grammar"])
-        parser = pgx.glr(pg, tables=pgx.LALR if case["tables"] == "LALR" else pgx.SLR)
+        parser = pgx.glr(pg, tables=pgx.LALR if case["tables"] == "LALR" else pgx.SLR, **({"dynamic_filter": accept_all} if case.get("filter") else {}))
         check_input(ctx, mon, g, pg, parser, pgx.prod_keys(pg), case, case["input"])
     finally:
         mon.uninstall()
